@@ -50,6 +50,12 @@ HISTORIES = {
     "namespace": ("basic", [{"s": A, "op": "create", "m": "x/y"}, {"s": A, "op": "rename", "m": "a", "to": "c"},
                             {"s": A, "op": "delete", "m": "x/y"}, {"s": A, "op": "delete", "m": "c"}]),
     "rename-inbox": ("basic", [SEL, {"s": A, "op": "rename", "m": "INBOX", "to": "old"}]),
+    # (the messages carry acknowledged flags when the mailbox is renamed / moved)
+    "flags-then-rename-inbox": ("basic", [SEL, {"s": A, "op": "store", "set": "1:*", "mode": "+", "flags": "\\Flagged kw"},
+                                          {"s": A, "op": "rename", "m": "INBOX", "to": "old"}]),
+    "flags-then-rename": ("basic", [{"s": A, "op": "select", "m": "a"}, {"s": A, "op": "store", "set": "1", "mode": "+", "flags": "\\Answered kw"},
+                                    {"s": A, "op": "rename", "m": "a", "to": "c"}]),
+    "flags-then-move": ("basic", [SEL, {"s": A, "op": "store", "set": "1:*", "mode": "+", "flags": "\\Flagged kw"}, {"s": A, "op": "move", "set": "1:2", "dst": "a"}]),
     "pack": ("basic", [SEL, {"s": A, "op": "del", "set": "1"}, {"s": A, "op": "append", "m": "INBOX"}, {"s": "env", "op": "poll", "dt": 21.0}]),
     "delivery-noop": ("basic", [SEL, {"s": "env", "op": "deliver", "m": "INBOX", "n": 2}, {"s": A, "op": "noop"}]),
     "delivery-inactive": ("basic", [{"s": "env", "op": "deliver", "m": "a"}, {"s": "env", "op": "poll", "dt": 30.0}, {"s": A, "op": "select", "m": "a"}]),
